@@ -100,7 +100,7 @@ def last_index_alts(s, sep):
 
 
 def as_alts(alts):
-    if len(alts) == 1 and alts[0][0] is True:
+    if len(alts) == 1 and alts[0][0] is True and not callable(alts[0][1]):
         return alts[0][1]
     return ('alts', alts)
 
@@ -859,3 +859,6 @@ def _strconv_formatuint(I, st, args):
         raise Unsupported('FormatUint with base != 10')
     outs = itoa_alts(I, st, x, (64, False))
     return ('outcomes', [Outcome_(s, 'ret', v) for s, v in outs])
+
+
+from . import reflectmodel  # noqa: E402  (registers the reflect models)
